@@ -23,7 +23,7 @@ ASSUMPTIONS = ["only runs whose premise held in every round and that terminated 
 N = {"quick": 240, "thorough": 7000}
 VARS = ["VOGP", "EpsilonPAL", "VOGP"]
 REQUIRE = {"quick": {"verdict_runs": 150, "isolated_designs": 150, "verdict::VOGP": 80, "verdict::EpsilonPAL": 40}}
-TIMEOUT = {"quick": 1500, "thorough": 7200}
+TIMEOUT = {"quick": 1500, "thorough": 14400}
 
 
 def make(rng, variant, real=False):
